@@ -207,6 +207,8 @@ func selfTest() (failed []string, n int) {
 		}
 		return false
 	}
+	expect("pooled memory / returned after Put", len(pooledMemoryLeaks(w, fnOf("PoolLeakBad"))) > 0, true)
+	expect("pooled memory / copied out", len(pooledMemoryLeaks(w, fnOf("PoolCopyOK"))) > 0, false)
 	expect("error discipline / checked", dropped("RetOK"), false)
 	expect("error discipline / result discarded", dropped("RetDrop"), true)
 	expect("error discipline / only logged", dropped("RetLogOnly"), true)
